@@ -1,5 +1,6 @@
 """Generator for the type-parameter-name family of C19 (configurations emitted by Hygiene.tla)."""
 import os
+import re
 
 from .routing import cargo_shard
 
@@ -197,12 +198,18 @@ def generate(cfgs, out_dir, harness_dir, repo, shards, write_if_changed, exclude
         src = "// generated by harness/gen/hygiene.py -- do not edit\n"
         for c in g:
             start = src.count("\n") + 1
-            src += TEMPLATES[c["shape"]][1] % {"N": c["param"], "low": c["param"].lower()}
+            t = TEMPLATES[c["shape"]][1] % {"N": c["param"], "low": c["param"].lower()}
+            # what the contract publishes under a name: the schema name of its contract-level exec message, without the module path
+            ty = re.search(r"let e: Result<(sv::ContractExecMsg(?:<[^>]*>)?), _>", t).group(1)
+            k = t.rstrip().rfind("}")
+            t = (t[:k] + "    pub fn schema_title() -> String {\n        let n = <%s as sylvia::cw_schema::schemars::JsonSchema>::schema_name();\n"
+                 "        n.split_once(\"::sv::\").map(|(_, b)| b.to_string()).unwrap_or(n)\n    }\n" % ty + t[k:])
+            src += t
             spans[(name, modname(c))] = (start, src.count("\n"))
         src += "\nfn main() {\n    let a: Vec<String> = std::env::args().collect();\n    verif_rrt::rt::open_trace(&a[1]);\n"
         for c in g:
             src += ("    { let (ok, h, q) = %s::smoke(); verif_rrt::rt::emit(verif_rrt::serde_json::json!({\"ev\":\"Hygiene\",\"param\":\"%s\",\"shape\":\"%s\","
-                    "\"built\":true,\"ran\":ok,\"handler\":h,\"query\":q})); }\n") % (modname(c), c["param"], c["shape"])
+                    "\"built\":true,\"ran\":ok,\"handler\":h,\"query\":q,\"schema\":%s::schema_title()})); }\n") % (modname(c), c["param"], c["shape"], modname(c))
         src += "    verif_rrt::rt::close_trace();\n}\n"
         write_if_changed(os.path.join(d, "src", "main.rs"), src)
         bins.append((name, [modname(c) for c in g]))
